@@ -406,3 +406,79 @@ def check_mint(ctx, F, rule="E-LIN.mint"):
                "counted edge-creating site %s..::%s %s" % (k + ("found" if k in seen_counted else "no longer exists: update the table",)),
                nontrivial=False)
     return n
+
+
+# ---- E-LIN.rcconst: the thresholds reference counts are compared with ----------------------------------------------------
+RC_THRESHOLDS = [
+    # (function marker, function name, comparison, constant, count source) -- why
+    ("arcslab::ArcSlab<", "release", "Ne", 1, "fetch_sub", "the slot is freed iff the count before the decrement was 1"),
+    ("arcslab::Slot<", "release", "Eq", 1, "release", "last reference iff the previous count was 1"),
+    ("arcslab::Slot<", "release_move", "Ne", 1, "release", "last reference iff the previous count was 1"),
+    ("oxidd_manager_index::manager::Manager<", "try_remove_node", "Ne", 2, "release",
+     "removable iff only the unique table's reference remains after releasing the caller's (previous count 2)"),
+    ("oxidd_manager_index::manager::Manager<", "try_remove_node", "Ne", 1, "load_rc", "re-read under the level lock: still only the table's reference"),
+    ("oxidd_manager_index::manager::LevelViewSet<", "gc::{closure#0}", "Ne", 1, "load_rc", "a node is dead iff only the unique table references it"),
+    ("oxidd_manager_index::manager::Store<", "drop_unique_table_edge", "Ne", 1, "release", "the slot is freed iff the table's was the last reference"),
+    ("oxidd_manager_pointer::manager::Manager<", "try_remove_node", "Ne", 2, "release",
+     "removable iff only the unique table's reference remains after releasing the caller's (previous count 2)"),
+    ("oxidd_manager_pointer::manager::Manager<", "try_remove_node", "Ne", 1, "load_rc", "re-read under the level lock"),
+    ("oxidd_manager_pointer::manager::LevelViewSet<", "gc::{closure#0}", "Ne", 1, "load_rc", "a node is dead iff only the unique table references it"),
+    ("DynamicTerminalManager<", "gc::{closure#0}", "Ne", 1, "load", "a terminal is dead iff only its table references it"),
+]
+_RCSRC = re.compile(r"::(load_rc|release|retain|fetch_sub|fetch_add|ref_count|load)$")
+
+
+def check_rc_thresholds(ctx, F, rule="E-LIN.rcconst"):
+    """Whether a node / terminal / slot may be freed is decided by comparing its reference count with a small constant
+    (1 = only the unique table holds it, 2 = the table and the reference being released).  Every comparison of a
+    value that derives from a count read or decrement (`load_rc`, `release`, `fetch_sub`, an atomic `load` in the
+    terminal store) with an integer constant in the manager crates and arcslab is inventoried and must be one of the
+    reviewed (function, comparison, constant) triples; a changed threshold frees live nodes or never frees dead ones."""
+    from efreelist import origins
+    found = []
+    for fid, m in sorted(F.mir.items()):
+        if fid.split("::")[0] not in ("oxidd_manager_index", "oxidd_manager_pointer", "arcslab"):
+            continue
+        B = cfg.Body(m)
+        nice = F.nice(fid)
+        for i in sorted(B.reach):
+            b = m["blocks"][i]
+            if b["c"]:
+                continue
+            for s in b["s"]:
+                rv = s.get("rv") or {}
+                if rv.get("k") != "bin" or rv.get("o") not in ("Eq", "Ne", "Lt", "Le", "Gt", "Ge"):
+                    continue
+                for x, y in (("a", "b"), ("b", "a")):
+                    c = cfg.const_int(rv.get(y))
+                    if c is None:
+                        continue
+                    names = [(cfg.callee_name(o[1]) or "") for o in origins(B, m, [rv.get(x)]) if o[0] == "call"]
+                    hit = [nm.rsplit("::", 1)[-1] for nm in names if _RCSRC.search(nm)]
+                    if hit and (fid.split("::")[0] != "oxidd_manager_index" or "terminal_manager" not in fid or "load" in hit
+                                or "fetch_sub" in hit):
+                        op = rv["o"] if y == "b" else {"Lt": "Gt", "Gt": "Lt", "Le": "Ge", "Ge": "Le"}.get(rv["o"], rv["o"])
+                        found.append((fid, nice, op, c, hit))
+    n = 0
+    used = set()
+    for fid, nice, op, c, hit in found:
+        key = None
+        for k in RC_THRESHOLDS:
+            if k[0] in nice and nice.endswith("::" + k[1]) and k[2] == op and k[3] == c and k[4] in hit:
+                key = k
+                break
+        n += 1
+        if key:
+            used.add(key[:5])
+        ctx.ob(rule, "%s:%s:%s %d" % (rule, re.sub(r"<.*>", "", nice.split(" as ")[0])[-60:] + "::" + nice.rsplit("::", 1)[-1], op, c),
+               key is not None,
+               "%s (%s): %s" % (nice, F.where(fid),
+                                "count %s %d (%s)" % (op, c, key[5]) if key else
+                                "a value derived from a reference count (%s) is compared `%s %d`, which is not one of the reviewed "
+                                "thresholds (1 = only the unique table holds the node, 2 = the table and the reference being "
+                                "released): live nodes are freed or dead ones kept" % ("/".join(sorted(set(hit))), op, c)))
+    for k in RC_THRESHOLDS:
+        ctx.ob(rule + ".table", "%s.table:%s%s:%s %d" % (rule, k[0], k[1], k[2], k[3]), k[:5] in used,
+               "reviewed threshold %s..::%s `%s %d` %s" % (k[0], k[1], k[2], k[3], "found" if k[:5] in used else
+                                                           "is no longer in the code (changed comparison or constant?)"))
+    return n
